@@ -46,8 +46,8 @@ JPack(t) ==
 
 -----------------------------------------------------------------------------
 (* (R) the resolution functions on small real tables *)
-SmallProbes == {<<a>> : a \in 1..12} \cup {<<a, b>> : a \in 1..12, b \in 1..12}
-                 \cup {<<a, 9, 9>> : a \in 1..8} \cup {<<a, 9, 10>> : a \in 1..3} \cup {<<a, 10, 11>> : a \in 1..3}
+SmallProbes == {<<a>> : a \in 1..12} \cup {<<a, b>> : a \in 1..12, b \in {9, 10, 11}} \cup {<<a, a>> : a \in 1..8}
+                 \cup {<<a, 9, 9>> : a \in {1, 4, 7}} \cup {<<a, 9, 10>> : a \in 1..2} \cup {<<a, 10, 11>> : a \in 1..2}
 DenoteAll(L, S) == <<[i \in 1..Len(L.gsub.lookups) |-> <<DenoteSub(L, i, S),
                                                          [q \in {<<4>>, <<5>>, <<8>>} |-> ApplyLookup(L.gsub.lookups, L.gdef, i, [b |-> q, ps |-> <<>>], 2).b]>>],
                      [i \in 1..Len(L.gpos.lookups) |-> DenotePos(L, i, S)]>>
